@@ -30,6 +30,7 @@ fn main() {
     let tier = Tier { thorough, seed };
     let code = match prop.as_str() {
         "C03" => rig::props::c03::main(tier, replay),
+        "C04" => rig::props::c04::main(tier, replay),
         "selftest" => rig::props::c03::selftest(),
         _ => {
             eprintln!("unknown property {}", prop);
